@@ -353,6 +353,23 @@ Section Control.
     exec_rules U step enter e fuel (r :: rules) i done (true :: fl) u s = LCont u1 (drop_file s1) (rev (true :: done) ++ fl).
   Proof. intros Hk HR. apply exec_rules_skip. unfold eval_pat, run_pat. rewrite Hk, HR. reflexivity. Qed.
 
+  (* the opening record: the start pattern of a closed range matches and the stop pattern is left through
+     next / nextfile on that very record: the flag is SET (inRange[i] is assigned before the second
+     pattern is evaluated), the range is open for the following records *)
+  Lemma exec_rules_opening_record_next fuel r rules i done fl u s u1 s1 u2 s2 :
+    rk r = PRange ->
+    run U step e fuel (enter (BPat i false) u) s = ROk (OVal true) u1 s1 ->
+    run U step e fuel (enter (BPat i true) u1) s1 = ROk ONext u2 s2 ->
+    exec_rules U step enter e fuel (r :: rules) i done (false :: fl) u s = LCont u2 s2 (rev (true :: done) ++ fl).
+  Proof. intros Hk H1 H2. apply exec_rules_skip. unfold eval_pat, run_pat. rewrite Hk, H1, H2. reflexivity. Qed.
+
+  Lemma exec_rules_opening_record_nextfile fuel r rules i done fl u s u1 s1 u2 s2 :
+    rk r = PRange ->
+    run U step e fuel (enter (BPat i false) u) s = ROk (OVal true) u1 s1 ->
+    run U step e fuel (enter (BPat i true) u1) s1 = ROk ONextfile u2 s2 ->
+    exec_rules U step enter e fuel (r :: rules) i done (false :: fl) u s = LCont u2 (drop_file s2) (rev (true :: done) ++ fl).
+  Proof. intros Hk H1 H2. apply exec_rules_skip. unfold eval_pat, run_pat. rewrite Hk, H1, H2. reflexivity. Qed.
+
   (* after nextfile the rest of the current file is out of the plan: the next record comes from the next operand *)
   Lemma drop_file_plan s : plan e (drop_file s) = planF e (argv s) (argc s) (idx s) (had s) (stdin s).
   Proof.
